@@ -1072,10 +1072,10 @@ function strip_comments(cline) {
 
 
 function combine_string_literals(backend_expression, string_literals) {
-    for (var i = 0; i < string_literals.length; i++) {
-        backend_expression = replace_all(backend_expression, `___RBQL_STRING_LITERAL${i}___`, string_literals[i]);
-    }
-    return backend_expression;
+    // All placeholders are substituted in a single pass: the text of an inserted literal is opaque and must not be searched for other placeholders
+    return backend_expression.replace(/___RBQL_STRING_LITERAL([0-9]+)___/g, function(match, literal_id) {
+        return parseInt(literal_id) < string_literals.length ? string_literals[parseInt(literal_id)] : match;
+    });
 }
 
 
@@ -1904,7 +1904,7 @@ async function shallow_parse_input_query(query_text, input_iterator, join_tables
 
     if (rb_actions.hasOwnProperty(UPDATE)) {
         var update_expression = translate_update_expression(rb_actions[UPDATE]['text'], input_variables_map, string_literals, ' '.repeat(8));
-        query_context.update_expressions = combine_string_literals(update_expression, string_literals);
+        query_context.update_expressions = update_expression; // String literals were already put back by translate_update_expression()
         query_context.writer.set_header(input_header);
     }
 
